@@ -1,4 +1,5 @@
 /* proof units for /repo/uc.c - the real file, included verbatim */
+#include "pre.h"
 #include "uc.c"
 #include "libc.spec.h"
 #include "uc.spec.h"
